@@ -71,7 +71,8 @@ def run_real(case):
             p = subprocess.run([sys.executable, drv, core.REPO, d, case["fault"][0], str(case["cores"]), str(case["batch"]),
                                 str(case["fault"][2])], timeout=120, stdout=subprocess.DEVNULL, stderr=subprocess.DEVNULL)
         except subprocess.TimeoutExpired:
-            raise RuntimeError("real-process run did not finish within 120 s (inconclusive)")
+            # a four-record job takes well under a second: two minutes without an exit status is a hang
+            raise core.Violation("real processes: a worker died (%s) and realign did not terminate within 120 s" % case["fault"][0])
         fired = os.path.exists(d + "/fault.fired")
         if not fired:
             return core.Result(False, ["real:fault_not_fired"])
@@ -88,7 +89,7 @@ def run_case(case):
         plat = fakemp.Platform(fakemp.Chooser(case["choices"]), fault=fault)
         res, text = rc.run_realign(case, d, platform=plat, sub="sim.gaf")
     if not plat.fault_fired:
-        return core.Result(False, ["fault_not_fired"])
+        return core.Result(False, ["fault_not_fired:" + fault[0]])
     what = "worker %d dies (%s at %d, status %d), cores=%d batch=%d schedule=%s" % (
         fault[1], fault[0], fault[2], fault[3], case["cores"], case["batch"], case["choices"][:30])
     core.check(res[0] != "hang", "%s: realign hangs (keeps polling after all workers exited)", what)
@@ -150,8 +151,27 @@ def enumerations(tier, shard, nshards):
                 yield ("fault %s x every schedule with <=%d deviations: %d record(s), cores=%d, batch=%d"
                        % (fault, k_max, nrec, cores, batch), gen, state)
     if shard == 0:
+        def torn():
+            # records of ~3 KB: a message of one record fits into the pipe; should results ever be sent batch-wise, a kill
+            # in the middle of such a message leaves the parent blocked in recv for ever
+            c = dict(c11.tiny_case(2, 2, 30))
+            big = []
+            fa = []
+            for i in range(60):
+                nm = "t%d" % i
+                big.append(c11.TINY_GAF[i % 2].replace("ra\t", nm + "\t").replace("rb\t", nm + "\t") + "\tzq:Z:" + "k" * 3000)
+                fa.append(">%s\n%s\n" % (nm, "GTACGTAAGGCA" if i % 2 == 0 else "GGCAATTAC"))
+            c["gaf"], c["fasta"] = big, "".join(fa)
+            for w in (0, 1):
+                cc = dict(c)
+                cc["fault"] = ["kill_mid_message", w, 0, -9]
+                cc["choices"] = []
+                yield cc
+
+        yield ("kill in the middle of a queue message larger than the pipe buffer (fires only if such messages exist)", torn(), True)
+
         def real():
-            for kind, cores in itertools.product(("exc", "exit", "kill"), (1, 2)):
+            for kind, cores in itertools.product(("exc", "exit", "kill", "term"), (1, 2)):
                 c = dict(c11.tiny_case(2, cores, 1))
                 c["gaf"] = c11.TINY_GAF + [c11.TINY_GAF[0].replace("ra\t", "rc\t"), c11.TINY_GAF[1].replace("rb\t", "rd\t")]
                 c["fasta"] = c11.TINY_FASTA + ">rc\nGTACGTAAGGCA\n>rd\nGGCAATTAC\n"
